@@ -5,6 +5,15 @@ V = os.path.dirname(os.path.dirname(os.path.abspath(__file__)))
 PY = "PYTHONPATH=/repo PYTHONHASHSEED=0 /venv/bin/python"
 
 CHECKS = {
+ "C04": dict(
+   text="PARTIAL. Four mathcomp theorems over finite state spaces and a real field: Metropolis test after an involution leaves pi invariant; symmetric-proposal "
+        "Metropolis leaves pi invariant; a fresh momentum leaves the joint target invariant; invariance is closed under composition, hence any number of HMC "
+        "transitions (refresh ; involution + Metropolis) started on the target stays on it. C01 (involution, unit Jacobian), C02 (Metropolis on misfit+kinetic "
+        "energy) and C03 (Gibbs momenta) supply the hypotheses for the code. Tie: the real transition with real Unit/Diagonal/Full masses and real targets is "
+        "co-executed bit for bit with that composition; moment tests over thousands of exact starting draws search for failing configurations.",
+   note="Not mechanised: the passage from counting measure to Lebesgue measure (change of variables, |det J| = 1). Trusted: Coq kernel, mathcomp; harness; scipy "
+        "truncnorm for the truncated target's closed-form moments. Moment tests are statistical (7 standard errors) and never the sole ground for a verdict.",
+   technique="Coq proof (finite-state kernel invariance, mathcomp) + bit-exact composition tie + moment tests as search", ref="5/C04"),
  "C09": dict(
    text="(a) Effect policy: soundness theorem of the checker (an accepted check means every function reachable in the call graph from a sampling transition reads "
         "randomness only through the object's own generator and no clock); the table itself is REGENERATED from hmclab's source by an AST scan on every run and "
